@@ -430,6 +430,32 @@ pub fn run(a: &Args) -> Report {
     total.count("corpus_entries_with_twins", (0..es.len()).filter(|i| twins_of(*i).is_some()).count() as u64);
     total.count("corpus_alias_classes_with_2plus", by_shallow.values().filter(|v| v.len() > 1).count() as u64);
 
+    if prop == "C02" {
+        // Two registries alive at once, nested on one thread: `NestInner::type_info()` builds a private registry of three roots
+        // while the outer registry is evaluating it. What the inner registry holds must be what the same roots give anywhere else.
+        let _ = hand::take_nested();
+        let outer = guard(|| {
+            let mut r = Registry::new();
+            let id = r.register_type(&scale_info::meta_type::<hand::NestOuter>()).id;
+            (id, PortableRegistry::from(r))
+        });
+        let nested = hand::take_nested();
+        let want = hand::nest_reference();
+        match (outer, nested) {
+            (Ok((id, reg)), Some(got)) => {
+                if got != want {
+                    total.violation("C02/registry-nested-in-type_info", format!("a registry built inside a type_info() that another registry was evaluating holds different metadata ({} bytes) than the same roots registered on their own ({} bytes)", got.len(), want.len()), json!({"fixed": "nested registries"}));
+                }
+                let mut bs = Bisim::default();
+                if let Err(e) = bs.conforms(&scale_info::meta_type::<hand::NestOuter>(), id, &reg, 0) {
+                    total.violation(&format!("C02/{}", classify_bisim(&e)), format!("outer registry of the nested pair: {}", e), json!({"fixed": "nested registries"}));
+                }
+                total.count("nested_registry_pairs_checked", 1);
+            }
+            (Err(p), _) => total.violation("C02/registration-panic", format!("registering a type whose type_info() uses a registry of its own panicked: {}", p), json!({"fixed": "nested registries"})),
+            (_, None) => total.inconclusive("the nested-registry probe did not run".into()),
+        }
+    }
     let n_long: u64 = if thorough { 6 } else { 2 };
     // entries whose registration reaches the failpoint, and entries made of the types around it
     let faulty: Vec<usize> = es.iter().enumerate().filter(|(_, e)| e.text.contains("FaultyParent")).map(|(j, _)| j).collect();
@@ -568,6 +594,28 @@ pub fn run(a: &Args) -> Report {
                 }
                 if frozen != reg {
                     rep.violation("C01/frozen-differs-from-types-iterator", "PortableRegistry::from(registry) differs from the registry's own listing".into(), case());
+                }
+                // a registry overwritten in place with another one (Clone::clone_from) is that other one, nothing of the old value remains
+                if let Some(earlier) = ex.snaps.get(ex.snaps.len() / 2) {
+                    let mut dst = freeze(earlier);
+                    // make the old value different in the parts a copy has to replace
+                    for t in dst.types.iter_mut() {
+                        for p in t.ty.type_params.iter_mut() {
+                            p.ty = Some(9_999.into());
+                        }
+                        t.ty.docs.push("old value".into());
+                    }
+                    match guard(|| dst.clone_from(&frozen)) {
+                        Ok(()) => {
+                            if dst != frozen {
+                                rep.violation("C01/clone-from-not-well-formed", "after `dst.clone_from(&src)` dst differs from src".into(), case());
+                            } else if let Err(e) = wf::check(&dst, true) {
+                                rep.violation("C01/clone-from-not-well-formed", e, case());
+                            }
+                            rep.count("producer_clone_from", 1);
+                        }
+                        Err(p) => rep.violation("C01/freeze-panic", format!("clone_from panicked: {}", p), case()),
+                    }
                 }
                 rep.count("producer_from_registry", 1);
                 // a prefix replayed into a fresh registry
@@ -784,6 +832,34 @@ pub fn run(a: &Args) -> Report {
                                     }
                                 }
                                 rep.count("definitions_reinterned_by_builder", frozen.types.len() as u64);
+                                // ... and definitions that differ from a held one in a single place (one doc line of a variant, one name,
+                                // one index) are distinct types for the builder as well
+                                if !frozen.types.is_empty() && i % 4 == 0 {
+                                    let mut b = scale_info::PortableRegistryBuilder::new();
+                                    let mut held: Vec<Type<PortableForm>> = Vec::new();
+                                    for t in &frozen.types {
+                                        if !held.contains(&t.ty) {
+                                            held.push(t.ty.clone());
+                                        }
+                                        b.register_type(t.ty.clone());
+                                    }
+                                    for _ in 0..6 {
+                                        let k = rng.below(frozen.types.len());
+                                        let one = PortableRegistry { types: vec![scale_info::PortableType::new(0, frozen.types[k].ty.clone())] };
+                                        if let Some((m, what)) = reggen::mutate(&mut rng, &one) {
+                                            if m.types.len() != 1 || held.contains(&m.types[0].ty) {
+                                                continue;
+                                            }
+                                            let got = b.register_type(m.types[0].ty.clone());
+                                            if got as usize != held.len() {
+                                                rep.violation("C05/distinct-types-merged", format!("a definition that differs from entry {} (path {:?}) by one edit ({}) received the existing id {} from a PortableRegistryBuilder holding {} definitions", k, frozen.types[k].ty.path.segments, what, got, held.len()), case());
+                                                return;
+                                            }
+                                            held.push(m.types[0].ty.clone());
+                                            rep.count("single_edit_neighbours_interned", 1);
+                                        }
+                                    }
+                                }
                             }
                             Err(p) => {
                                 rep.violation("C05/registration-panic", format!("re-interning the registry's definitions in a PortableRegistryBuilder panicked: {}", p), case());
@@ -839,6 +915,14 @@ pub fn run(a: &Args) -> Report {
                     Ok(Ok(ex2)) => {
                         let r2: PortableRegistry = ex2.registry.into();
                         let frozen: PortableRegistry = ex.registry.into();
+                        // the frozen form a user ends up with carries every id under the label it was handed out with
+                        for (id, def) in &last {
+                            if frozen.types.iter().find(|t| t.id == *id).map(|t| &t.ty) != Some(def) {
+                                rep.violation("C11/id-unstable", format!("id {} resolves to its definition in the registry but the frozen registry has no entry labelled {} with that definition", id, id), case());
+                                return;
+                            }
+                        }
+                        rep.count("frozen_labels_checked", last.len() as u64);
                         if r2.encode() != frozen.encode() || refcodec::encode(&r2) != bytes {
                             rep.violation("C11/replay-differs", "replaying the same history gives a different registry".into(), case());
                             return;
